@@ -360,7 +360,8 @@ fn btpe<R: Rng + ?Sized>(btpe: Btpe, flipped: bool, rng: &mut R) -> u64 {
         };
         if alpha
             > x_m * (f1 / x1).ln()
-                + (((n - m) as f64) + 0.5) * (z / w).ln()
+                // z / w = 1 + (y - m) / w; the quotient itself rounds to 1 once n exceeds ~2^50
+                + (((n - m) as f64) + 0.5) * (y_sub_m / w).ln_1p()
                 + y_sub_m * (w * btpe.p / (x1 * q)).ln()
                 // We use the signs from the GSL implementation, which are
                 // different than the ones in the reference. According to
